@@ -332,6 +332,187 @@ def correspondence(run):
     bad = run.coq_mismatches(HEADER, "ccase", "ccase_ok", cases, shard=100)
     for i in bad:
         report(run, meta[i][0], meta[i][1], "observations differ")
+    mixed_conventions(run)
+
+
+# ---- mixed naming conventions: every context may carry its own ------------------------------------------------------
+CONV_FNS = {"camel": lambda a: _CAMEL_RE.sub(lambda t: t.group(1).upper(), a), "python": lambda a: a, "shout": lambda a: a.upper()}
+VFNAMES_REG = ["f", "F", "g", "fetch_item", "fetchItem", "FETCH_ITEM", "FETCHITEM"]
+VHEADER = "From YV Require Import Model.Contexts Model.ContextsConv."
+CTORS = ("plain", "plaindata", "multi", "linked", "child")
+
+
+def conv_objects():
+    from yaql.language import conventions
+
+    class Shout(conventions.Convention):
+        def convert_function_name(self, name):
+            return name.upper()
+
+        def convert_parameter_name(self, name):
+            return name.upper()
+    return {"camel": conventions.CamelCaseConvention(), "python": conventions.PythonConvention(), "shout": Shout(), None: None}
+
+
+def gen_conv_ops(rng):
+    ops = gen_ops(rng, rng.randrange(2, 9), rng.randrange(0, 22))
+    fds = [(rng.choice(VFNAMES_REG), i + 1) for i in range(6)]
+    out, tags = [], []
+    for o in ops:
+        if o[0] in ("reg", "delfn"):
+            o = (o[0], o[1], rng.choice(fds)) + tuple(o[3:])
+        out.append(o)
+        if o[0] in CTORS:
+            tags.append(None if o[0] == "child" else rng.choice([None, None, "camel", "python", "shout"]))
+    return out, tags
+
+
+def effective_conventions(ops, tags):
+    """The documented rule, computed by the harness itself: a context created without a convention takes its parent's
+    (MultiContext: its first member's); a child context takes the convention of the context it was created from.
+    Returns (convention per context, conversion table for the plain contexts)."""
+    eff, table, pid = [], [], 0
+    for o in ops:
+        if o[0] not in CTORS:
+            continue
+        tag = tags[len(eff)]
+        if o[0] in ("plain", "plaindata", "linked"):
+            e = tag if tag is not None else (eff[o[1]] if o[1] is not None else None)
+        elif o[0] == "multi":
+            e = tag if tag is not None else eff[o[1][0]]
+        else:
+            e = eff[o[1]]
+        eff.append(e)
+        if o[0] in ("plain", "plaindata", "child"):
+            if e is not None:
+                for a in sorted({n.rstrip("_") for n in FNAMES_Q}):
+                    b = CONV_FNS[e](a)
+                    if b != a:
+                        table.append((pid, a, b))
+            pid += 1
+    return eff, table
+
+
+def observe_cv(c, ids):
+    out = []
+    for n in FNAMES_Q:
+        fs, ex = c.get_functions(n, use_convention=True)
+        out += [3000] + ser_fids(fs, ids) + [1 if ex else 0]
+        layers = c.collect_functions(n, use_convention=True)
+        out += [4000, len(layers)]
+        for l in layers:
+            out += ser_fids(l, ids)
+    return out
+
+
+def run_impl_conv(ops, tags):
+    env, res, fdobj, ids = [], [], {}, {}
+    conv = conv_objects()
+
+    def fd(spec):
+        if spec not in fdobj:
+            o = specs.FunctionDefinition(spec[0], lambda: None)
+            fdobj[spec] = o
+            ids[id(o)] = spec[1]
+        return fdobj[spec]
+    for op in ops:
+        out = 0
+        try:
+            k = op[0]
+            cv = conv[tags[len(env)]] if k in CTORS and k != "child" else None
+            if k == "plain":
+                env.append(contexts.Context(None if op[1] is None else env[op[1]], convention=cv))
+            elif k == "plaindata":
+                env.append(contexts.Context(None if op[1] is None else env[op[1]], data=(None if op[2] == 0 else op[2]), convention=cv))
+            elif k == "multi":
+                env.append(contexts.MultiContext([env[i] for i in op[1]], convention=cv))
+            elif k == "linked":
+                env.append(contexts.LinkedContext(None if op[1] is None else env[op[1]], env[op[2]], convention=cv))
+            elif k == "child":
+                env.append(env[op[1]].create_child_context())
+            elif k == "set":
+                env[op[1]][op[2]] = None if op[3] == 0 else op[3]
+            elif k == "del":
+                del env[op[1]][op[2]]
+            elif k == "reg":
+                env[op[1]].register_function(fd(op[2]), exclusive=op[3])
+            elif k == "delfn":
+                env[op[1]].delete_function(fd(op[2]))
+        except KeyError:
+            out = 1
+        except Exception as e:
+            return res + [(2, -1, "%s: %r" % (type(e).__name__, e))], False
+        try:
+            res.append((out, hash_list([x for c in env for x in observe_cv(c, ids)]), None))
+        except Exception as e:
+            return res + [(out, -2, "observation raised %s: %r" % (type(e).__name__, e))], False
+    return res, True
+
+
+def vcase_term(ops, tags, res):
+    _, table = effective_conventions(ops, tags)
+    return "{| vc_tab := %s; vc_fnames := %s; vc_ops := %s; vc_obs := %s |}" % (
+        gal.lst("(%s, (%s, %s))" % (gal.nat(p), gal.s(a), gal.s(b)) for p, a, b in table),
+        gal.lst(gal.s(n) for n in FNAMES_Q), gal.lst(cop_terms(ops)),
+        gal.lst(gal.pair(gal.z(a), gal.z(b)) for a, b, _ in res))
+
+
+def conv_differs(run, ops, tags):
+    try:
+        res, complete = run_impl_conv(ops, tags)
+    except Exception:
+        return False
+    if not complete:
+        return True
+    return bool(run.coq_mismatches(VHEADER, "vcase", "vcase_ok", [vcase_term(ops, tags, res)]))
+
+
+def shrink_conv(run, ops, tags):
+    """drop non-constructor ops from the end, then from anywhere, while the disagreement persists"""
+    cur = list(ops)
+    changed, budget = True, 40
+    while changed and budget > 0:
+        changed = False
+        for i in range(len(cur) - 1, -1, -1):
+            if cur[i][0] in CTORS:
+                continue
+            cand = cur[:i] + cur[i + 1:]
+            budget -= 1
+            if conv_differs(run, cand, tags):
+                cur, changed = cand, True
+                break
+            if budget <= 0:
+                break
+    return cur
+
+
+def mixed_conventions(run):
+    n = run.n(250, 4000)
+    cases, meta = [], []
+    for _ in range(n):
+        ops, tags = gen_conv_ops(run.rng)
+        res, complete = run_impl_conv(ops, tags)
+        kinds = {o[0] for o in ops}
+        run.case(("conv", tuple(map(repr, ops)), tuple(tags)),
+                 nontrivial=bool(kinds & {"multi", "linked"}) and "reg" in kinds and len({t for t in tags if t}) >= 2)
+        run.count("mixed_convention_history")
+        for t in tags:
+            run.count("convention:%s" % t)
+        if not complete:
+            run.fail("violation", "a context operation / convention-aware lookup raised: %s" % res[-1][2], {"ops": ops, "conventions": tags})
+            continue
+        cases.append(vcase_term(ops, tags, res))
+        meta.append((ops, tags, res))
+    bad = run.coq_mismatches(VHEADER, "vcase", "vcase_ok", cases, shard=100)
+    for i in bad[:3]:
+        ops, tags, res = meta[i]
+        small = shrink_conv(run, ops, tags)
+        eff, table = effective_conventions(small, tags)
+        run.fail("violation", "a lookup with use_convention=True does not return the layer-wise merge in which every member "
+                              "context rewrites the name by its own naming convention",
+                 {"ops": small, "conventions": tags, "effective_conventions": eff,
+                  "conversion_table(pid, asked, rewritten)": table, "impl_per_step": [(a, b) for a, b, _ in run_impl_conv(small, tags)[0]],
+                  "theorems": ["C17_convention_layer_functions", "C17_convention_collect", "C17_convention_only_members_matter"]})
 
 
 def load_corpus():
@@ -351,6 +532,11 @@ def load_corpus():
 
 
 def replay(run, data):
+    if "conventions" in data.get("data", {}):
+        d = data["data"]
+        ops = [tuple(tuple(x) if isinstance(x, list) and o[0] in ("reg", "delfn") and j == 2 else x
+                     for j, x in enumerate(o)) for o in d["ops"]]
+        return not conv_differs(run, ops, d["conventions"])
     ops = [tuple(tuple(x) if isinstance(x, list) and o[0] in ("reg", "delfn") and j == 2 else x
                  for j, x in enumerate(o)) for o in data["data"]["ops"]]
     res, complete = run_impl(ops)
